@@ -224,13 +224,14 @@ def rule_deriv_key(F, ev, R, config, rule="R-DERIV-KEY"):
         return
     b = pd[0]
     env = Env(b)
-    ins = [(bi, t) for bi, t in b.calls() if "fn" in t and callee_id(t["fn"]).endswith("HashMap::insert")]
+    # the insertion may sit in the method or in a closure it runs (`.and_then(|d| map.insert(key, d) …)`): effects
+    from effects import iteration_effects
+    ins = [e for e in iteration_effects(ev, env) if e.kind == "call" and e.cid.endswith("HashMap::insert")]
     ok = False
     msg = "no insertion into the derivative map"
     if len(ins) == 1:
-        bi, t = ins[0]
-        key = ev.operand(env, t["args"][1], (bi, None))
-        mapv = ev.operand(env, t["args"][0], (bi, None))
+        key = ins[0].raw[1]
+        mapv = ins[0].raw[0]
         import logic
         msg = "derivative key is `%s`" % short(key)[:200]
         space = None
